@@ -494,7 +494,12 @@ impl Lock {
         }
         match (&step.outcome, &real) {
             (Outcome::Ok(cyc), RealOutcome::Ok(states)) => {
-                if queue_after != c.pending {
+                // as multisets: the order among simultaneously pending requests is not pinned by any
+                // property (an implementation may keep them by priority instead of by arrival)
+                let (mut qa, mut qw) = (queue_after.clone(), c.pending.clone());
+                qa.sort_unstable();
+                qw.sort_unstable();
+                if qa != qw {
                     diffs.push(Diff::Queue { real: queue_after.clone(), want: c.pending.clone() });
                 }
                 for i in 0..8 {
